@@ -145,6 +145,11 @@ def run_case(case, ctx):
     if not abs(Z_l - float(np.sum(prob_l))) <= 1e-11 * Z_l:
         ctx.violation("normalization-vs-sum", f"normalization={Z_l!r}, sum of probabilities {float(np.sum(prob_l))!r}",
                       witness=wit)
+    for zname, zarg in (("tensor", Z), ("float", float(Z_l)), ("numpy.float64", np.float64(Z_l))):
+        pn = ctx.lib(f"probability(Z as {zname})", st.probability, sp, zarg, tags={"Z_form": zname}).numpy()
+        if np.any(np.abs(pn - prob_l / Z_l) > 1e-12 * (prob_l / Z_l) + 1e-300) or abs(float(pn.sum()) - 1) > 1e-10:
+            ctx.violation("normalised-probability", f"probability(v, Z) with Z given as {zname} is not probability(v)/Z "
+                          f"(sum {float(pn.sum())!r})", tags={"Z_form": zname}, witness=wit)
     # (4) call forms agree
     ctx.count("paired_entries_compared", N * N)
     e = np.abs(pl - rl)
